@@ -109,6 +109,10 @@ func routesFor(sc *Scn) string {
 	switch sc.Routes {
 	case "undecided":
 		return "[" + und + "]"
+	case "errset":
+		// two OR'ed matcher sets: the first fails with a matcher error on the client's bytes, the
+		// second would match them - matching ends by the error (fail closed), no handler runs
+		return `[{"match":[{"h_need":{"id":"strict","k":4,"err_on":"BAD!"}},{"h_need":{"id":"lax","k":1,"pat":"B"}}],"handle":[{"handler":"h_timed"}]}]`
 	case "und2":
 		// undecided even after one full prefetch chunk (client 'exact' sends exactly one)
 		return fmt.Sprintf(`[{"match":[{"h_need":{"id":"und2","k":%d}}],"handle":[{"handler":"h_timed"}]}]`, chunk+100)
@@ -194,6 +198,9 @@ func execute(x *explore.Exec, sc *Scn) *result {
 				case "eof":
 					cl.Write([]byte("ab"))
 					cl.CloseWrite()
+				case "bad":
+					cl.Write([]byte("BAD!"))
+					res.firstByteAt = vsched.NowNS()
 				case "exact":
 					cl.Write(make([]byte, chunk)) // exactly one prefetch chunk, then silence
 					res.firstByteAt = vsched.NowNS()
@@ -228,6 +235,8 @@ func execute(x *explore.Exec, sc *Scn) *result {
 				send([]byte("a"))
 			case "exact": // a datagram that fills the prefetch buffer exactly, then silence
 				send(make([]byte, chunk))
+			case "bad":
+				send([]byte("BAD!"))
 			case "trickle":
 				for i := 0; i < sc.Timeout/sc.Delta+4; i++ {
 					send([]byte{byte('a' + i%26)})
@@ -348,6 +357,13 @@ func check(x *explore.Exec, sc *Scn, r *result) {
 		if ref >= 0 && noTimeDev && abortAt > ref+T+eps {
 			x.Fail("matching-outlasts-timeout:"+sc.Proto, "matching ended %.3fs after it started, later than the %.3fs timeout (no thread was delayed); %s", float64(abortAt-ref)/1e9, float64(T)/1e9, desc())
 		}
+	case "errset":
+		if handlerStarted {
+			x.Fail("handler-after-matcher-error", "a handler ran although matching ended by a matcher error (fail closed); %s", desc())
+		}
+		if abortAt < 0 {
+			x.Fail("matching-never-ended", "matching did not end although a matcher failed; %s", desc())
+		}
 	case "needbig", "eatbig":
 		if handlerStarted {
 			x.Fail("handler-after-buffer-full", "a handler ran although matching needs more than the buffer limit; %s", desc())
@@ -399,13 +415,15 @@ func scenarios(tier string, yield func(any) bool) {
 	for _, proto := range []string{"tcp", "udp"} {
 		for _, T := range timeouts {
 			for _, ph := range phases {
-				for _, routes := range []string{"undecided", "und2", "nonterm", "sub", "decide", "needbig", "eatbig"} {
+				for _, routes := range []string{"undecided", "und2", "errset", "nonterm", "sub", "decide", "needbig", "eatbig"} {
 					var clients []string
 					switch routes {
 					case "undecided":
 						clients = []string{"silent", "trickle", "eof"}
 					case "und2":
 						clients = []string{"exact"}
+					case "errset":
+						clients = []string{"bad"}
 					case "nonterm", "sub":
 						clients = []string{"trickle"}
 					case "decide":
